@@ -185,6 +185,9 @@ pub fn gen_case<R: Rng>(rng: &mut R, real: bool) -> Case {
     if real {
         let mut cfg = mc::rand_cfg(rng, 0., 6000);
         cfg.max_step_size = 10f64.powf(rng.gen_range(-3., -0.5));
+        if rng.gen_bool(0.25) {
+            cfg.kt_start = -0.0;
+        }
         let lj = rng.gen_bool(0.4);
         let shape = if lj {
             if rng.gen_bool(0.3) {
@@ -216,7 +219,11 @@ pub fn gen_case<R: Rng>(rng: &mut R, real: bool) -> Case {
         if rng.gen_bool(0.25) {
             cfg.inner_steps = rng.gen_range(1, 4);
         }
-        let mut sc = ScriptedCase { init, bounds, script, cfg, via_api: rng.gen_bool(0.3), aliases: vec![] };
+        if rng.gen_bool(0.25) {
+            // zero is zero whatever its sign
+            cfg.kt_start = -0.0;
+        }
+        let mut sc = ScriptedCase { init, bounds, script, cfg, via_api: rng.gen_bool(0.3), aliases: vec![], score_offset: 0. };
         mc::maybe_start_outside(rng, &mut sc, 0.15);
         Case::Scripted(sc)
     }
@@ -282,7 +289,7 @@ fn cli_leg(ctx: &Ctx, st: &mut Stats) {
 }
 
 pub fn run(ctx: &Ctx) {
-    ctx.set_rule("optimise_state with kt_start = 0 over the configuration space: kt_finish in {unset, 0, 1e-3, 0.1, 10} x kt_ratio in {unset, 0, 0.1, 0.5, 1, and outside [0,1]: -1e3, -1, -0.5, 1.5, 2} x steps 1..20000 (also thousands of 1-3-step loops; and lean quenches in which every proposal is worse, of 2e3-2e5 loops and of more than 2^31 - thorough: 2^32 - one-step loops) x inner_steps (equal, smaller, non-dividing, larger than steps) x convergence {unset, 0, 1e-6, 1} x max_step 1e-4..1 x seeds, built through the CLI's argument parser (the only way to leave kt_finish unset) and through the builder API; plus the real binary's own pipeline (hook log: score entering and leaving stages 1 and 3 of every replica); on scripted states (random better/equal/worse/undefined scores; bowl landscapes with an undefined region) and on real hard and LJ states of all groups wrapped in a Spy. The trace monitor resolves accept/reject decisions from the parameter vectors; event = a resolved acceptance of a worse score, or a returned score below the input score (monitor's belief, and re-scored result for real states). Non-trivial = >= 2 inner loops and >= 1 worse proposal resolved; distinct by configuration");
+    ctx.set_rule("optimise_state with kt_start = 0 (+0 and -0) over the configuration space: kt_finish in {unset, 0, 1e-3, 0.1, 10} x kt_ratio in {unset, 0, 0.1, 0.5, 1, and outside [0,1]: -1e3, -1, -0.5, 1.5, 2} x steps 1..20000 (also thousands of 1-3-step loops; and lean quenches in which every proposal is worse, of 2e3-2e5 loops and of more than 2^31 - thorough: 2^32 - one-step loops) x inner_steps (equal, smaller, non-dividing, larger than steps) x convergence {unset, 0, 1e-6, 1} x max_step 1e-4..1 x seeds, built through the CLI's argument parser (the only way to leave kt_finish unset) and through the builder API; plus the real binary's own pipeline (hook log: score entering and leaving stages 1 and 3 of every replica); on scripted states (random better/equal/worse/undefined scores; bowl landscapes with an undefined region) and on real hard and LJ states of all groups wrapped in a Spy. The trace monitor resolves accept/reject decisions from the parameter vectors; event = a resolved acceptance of a worse score, or a returned score below the input score (monitor's belief, and re-scored result for real states). Non-trivial = >= 2 inner loops and >= 1 worse proposal resolved; distinct by configuration");
     let n_s = ctx.tier.pick(60u64, 3_000u64);
     let n_r = ctx.tier.pick(6u64, 250u64);
     let prev = std::panic::take_hook();
